@@ -236,7 +236,7 @@ func (w *World) argFrom(id string, opts *RunOpts, ex *Extra) {
 			for _, b := range fn.Blocks {
 				for _, ins := range b.Instrs {
 					call, ok := ins.(*ssa.Call)
-					if !ok || !strings.Contains(calleeName(call), callee) {
+					if !ok || !calleeMatches(calleeName(call), callee) {
 						continue
 					}
 					args := call.Call.Args
@@ -399,7 +399,7 @@ func (w *World) guarded(id string, opts *RunOpts, ex *Extra) {
 			for _, b := range fn.Blocks {
 				for _, ins := range b.Instrs {
 					call, ok := ins.(*ssa.Call)
-					if !ok || !strings.Contains(calleeName(call), callee) {
+					if !ok || !calleeMatches(calleeName(call), callee) {
 						continue
 					}
 					found++
@@ -619,9 +619,19 @@ func (w *World) fieldFrom(id string, opts *RunOpts, ex *Extra) {
 				}
 			}
 			sort.Strings(bad)
+			unknownSrc := false
+			for x := range got {
+				if strings.HasPrefix(x, "other:") || x == "map:?" {
+					unknownSrc = true
+				}
+			}
 			switch {
 			case len(got) == 0:
 				ex.Lines = append(ex.Lines, fmt.Sprintf("UNDECIDED: %s: no store to %s found in %s any more", name, f[0], c.Func))
+				ex.Discharged++
+			case unknownSrc:
+				// a value this analysis cannot trace (a helper's result, say): not a verdict
+				ex.Lines = append(ex.Lines, fmt.Sprintf("UNDECIDED: %s: %s is set from a value whose origin is not traced ({%s})", name, f[0], strings.Join(sortedKeysOf(got), ", ")))
 				ex.Discharged++
 			case len(bad) > 0:
 				msg := fmt.Sprintf("%s is set from {%s}, the contract says {%s}: %s", f[0], strings.Join(sortedKeysOf(got), ", "), strings.Join(sortedKeysOf(want), ", "), strings.Join(bad, "; "))
@@ -707,10 +717,15 @@ func (w *World) successPathCalls(id string, opts *RunOpts, ex *Extra) {
 			// successful return (a boolean schema returns after one decode, an object
 			// after three)
 			allowed := map[int]bool{}
+			atLeast := -1 // "3+": that many or more
 			for _, x := range strings.Split(f[1], "|") {
 				var v int
-				fmt.Sscan(x, &v)
-				allowed[v] = true
+				fmt.Sscan(strings.TrimSuffix(x, "+"), &v)
+				if strings.HasSuffix(x, "+") {
+					atLeast = v
+				} else {
+					allowed[v] = true
+				}
 			}
 			name := fmt.Sprintf("%s/success-path-calls:%s=%s", c.Func, callee, f[1])
 			fn := w.findFunc(c)
@@ -724,7 +739,7 @@ func (w *World) successPathCalls(id string, opts *RunOpts, ex *Extra) {
 			total := 0
 			for _, b := range fn.Blocks {
 				for _, ins := range b.Instrs {
-					if call, ok := ins.(*ssa.Call); ok && strings.Contains(calleeName(call), callee) {
+					if call, ok := ins.(*ssa.Call); ok && calleeMatches(calleeName(call), callee) {
 						calls[b]++
 						total++
 					}
@@ -763,7 +778,7 @@ func (w *World) successPathCalls(id string, opts *RunOpts, ex *Extra) {
 					continue
 				}
 				succReturns++
-				if !allowed[best[b]] && bad == "" {
+				if !allowed[best[b]] && !(atLeast >= 0 && best[b] >= atLeast) && bad == "" {
 					p := w.prog.Fset.Position(ret.Pos())
 					bad = fmt.Sprintf("the successful return at line %d can be reached after %d call(s) of %s (the contract says %s)", p.Line, best[b], callee, f[1])
 				}
@@ -825,7 +840,7 @@ func (w *World) afterLoop(id string, opts *RunOpts, ex *Extra) {
 			for _, b := range fn.Blocks {
 				for _, ins := range b.Instrs {
 					call, ok := ins.(*ssa.Call)
-					if !ok || !strings.Contains(calleeName(call), callee) {
+					if !ok || !calleeMatches(calleeName(call), callee) {
 						continue
 					}
 					found++
@@ -875,7 +890,7 @@ func (w *World) alwaysCalls(id string, opts *RunOpts, ex *Extra) {
 			}
 			has := func(b *ssa.BasicBlock) bool {
 				for _, ins := range b.Instrs {
-					if call, ok := ins.(*ssa.Call); ok && strings.Contains(calleeName(call), callee) {
+					if call, ok := ins.(*ssa.Call); ok && calleeMatches(calleeName(call), callee) {
 						return true
 					}
 				}
@@ -921,4 +936,16 @@ func (w *World) alwaysCalls(id string, opts *RunOpts, ex *Extra) {
 			}
 		}
 	}
+}
+
+// calleeMatches: the clause's callee may list alternatives, `logf|Fprint|Println`:
+// any of them counts as the event (a refactoring may print the diagnostic by
+// another of the usual means).
+func calleeMatches(name, pattern string) bool {
+	for _, alt := range strings.Split(pattern, "|") {
+		if alt != "" && strings.Contains(name, alt) {
+			return true
+		}
+	}
+	return false
 }
